@@ -12,13 +12,11 @@ import (
 	"strings"
 	"sync"
 
-	"0chain.net/chaincore/block"
 	cstate "0chain.net/chaincore/chain/state"
 	"0chain.net/chaincore/transaction"
 	"0chain.net/core/encryption"
 	"0chain.net/smartcontract/storagesc"
 	"github.com/0chain/common/core/currency"
-	"github.com/0chain/common/core/statecache"
 	"github.com/herumi/bls-go-binary/bls"
 	"verifharness/lib/engine"
 )
@@ -136,38 +134,27 @@ func newWorld(tag string, fork bool) (*world, error) {
 	// engine.NewWorld opened block 1 with a pointer-derived hash; re-open it with a history-derived one, at round
 	// 100: in reward round 0 (rounds < block_reward.trigger_period) a passed challenge is rejected ("can't get
 	// blobber reward from partition list") because a fresh blobber's RewardRound.StartRound is 0 as well
-	w.Round = 100
-	x.reopenBlock()
+	w.Round = 99
+	x.nextBlock()
 	return x, nil
 }
 
-// reopenBlock replaces the current (still empty) block by one whose hash is a function of the case tag and of the
-// history executed so far: unique across concurrently running cases (the state cache is global and keyed by block
-// hash), identical between two runs of the same history (generate_challenge seeds its choice with the block hash).
-func (x *world) reopenBlock() {
+// patchBlock: the engine lib gives every block of every World a process-unique hash (the chain's state cache is global
+// and keyed by block hash; sharing a hash between two worlds whose blocks differ would leak cached values). What the
+// contracts read from the block to seed random choices (generate_challenge, blobber_block_rewards: `b.PrevHash`;
+// challenge_response: the round random seed) must however be the same in every run of the same history, so those
+// two FIELDS of the current block object are set to functions of the case tag and of the history executed so far.
+// The block cache keeps the real hashes.
+func (x *world) patchBlock() {
 	w := x.w
-	b := block.NewBlock("", w.Round)
-	b.Hash = encryption.Hash(fmt.Sprintf("verif-storage-block|%s|%d|%s", x.tag, w.Round, encryption.Hash(x.hist)))
-	b.PrevHash = w.Prev.Hash
-	if w.Prev.Round == 0 {
-		// the genesis hash differs from World to World (engine lib); generate_challenge and blobber_block_rewards seed
-		// their choice with PrevHash, which must be the same in every run of the same history
-		b.PrevHash = encryption.Hash("verif-storage-genesis|" + x.tag)
-	}
-	b.PrevBlock = w.Prev
-	b.CreationDate = w.Now
-	b.MinerID = engine.NewClient("miner0").ID
-	b.RoundRandomSeed = int64(w.Round)*7919 + 13
-	st := block.CreateStateWithPreviousBlock(w.Prev, w.NDB, w.Round)
-	b.ClientState = st
-	w.B = b
-	w.State = st
-	w.BC = statecache.NewBlockCache(w.C.GetStateCache(), statecache.Block{Round: b.Round, Hash: b.Hash, PrevHash: b.PrevHash})
+	w.B.PrevHash = encryption.Hash(fmt.Sprintf("verif-storage-prev|%s|%d|%s", x.tag, w.Round, encryption.Hash(x.hist)))
+	w.B.RoundRandomSeed = int64(w.Round)*7919 + 13
+	w.B.CreationDate = w.Now
 }
 
 func (x *world) nextBlock() {
 	x.w.NextBlock()
-	x.reopenBlock()
+	x.patchBlock()
 }
 
 type txres struct {
